@@ -49,6 +49,7 @@ def run(ctx: Ctx) -> None:
         ctx.file_used(REPO / rs.file_for(s))
     rust_gate(ctx, rs)
     python_gate(ctx, py)
+    python_frame_values(ctx, py)
     frames(ctx, py, rs)
     low_power(ctx, py, rs)
 
@@ -258,6 +259,81 @@ def python_gate(ctx: Ctx, py: PyProgram) -> None:
         if not src_ok:
             ctx.violation("C12.1/gate-source", skey, f"{kind} is not dominated by a mask/status test `(IMR & ISR) != 0`", where, guards=texts)
     ctx.instance("C12.2/python-gate-defs", "definitions of the master-enable gate variable reaching the delivery test", len(defs.get("irm_enabled", [])) or 1, 1)
+
+
+def python_frame_values(ctx: Ctx, py: PyProgram) -> None:
+    """(a) the IMR byte put on the stack is the IMR as read (the IRM mask is applied only to the value written back);
+    (b) leaving interrupt context is tied to RETI specifically; (c) every latched timer status bit arms the dispatcher
+    under no stricter condition than the latch itself."""
+    fn = py.func(EMU, "PCE500Emulator.step")
+    g = cfgmod.build_py(fn, "PCE500Emulator.step")
+    defs = py_defs(fn)
+    n = 0
+    # (a)
+    pushes = [c for c in ast.walk(fn) if py_is_call(c, "memory.write_bytes") and len(c.args) == 3 and unparse(c.args[0]) == "1"]
+    imr_push = []
+    for c in pushes:
+        v = c.args[2]
+        lv = py_leaves(v, defs)
+        if "IMEMRegisters.IMR" in lv:
+            imr_push.append(c)
+    ctx.need(len(imr_push) == 1, f"step: expected one 1-byte push of IMR, found {len(imr_push)}")
+    v = imr_push[0].args[2]
+    chain = [v]
+    if isinstance(v, ast.Name):
+        chain = [d for d in defs.get(v.id, []) if isinstance(d, ast.AST)]
+    n += 1
+    for d in chain:
+        if "IMRFlag.IRM" in unparse(d) or "0x7F" in unparse(d).upper().replace("0X", "0x") or "127" in unparse(d):
+            ctx.violation("C12.3/frame-imr-value", key_of(EMU, "PCE500Emulator.step", "IMR pushed after masking IRM"),
+                          f"the IMR byte saved on the stack is `{unparse(d)[:90]}`: IRM is already cleared in the saved copy, so RETI restores IMR with interrupts disabled", f"{EMU}:{imr_push[0].lineno}")
+    wb = [c for c in ast.walk(fn) if py_is_call(c, "memory.write_byte") and c.args and "IMEMRegisters.IMR" in py_leaves(c.args[0], defs)]
+    ctx.need(len(wb) >= 1, "step: IMR write-back not found")
+    n += 1
+    if not any("IMRFlag.IRM" in unparse(c.args[1]) or any("IMRFlag.IRM" in unparse(d) for nm in [x.id for x in ast.walk(c.args[1]) if isinstance(x, ast.Name)] for d in defs.get(nm, []) if isinstance(d, ast.AST) and d not in chain) for c in wb):
+        ctx.violation("C12.3/frame-imr-value", key_of(EMU, "PCE500Emulator.step", "IMR write-back does not clear IRM itself"),
+                      "the IMR write-back value carries no IRM mask of its own (it reuses the pushed value): either the saved copy or the live IMR is wrong", f"{EMU}:{wb[0].lineno}")
+    # (b)
+    clears = [a for a in ast.walk(fn) if isinstance(a, ast.Assign) and any(attr_chain(t) == "self._in_interrupt" for t in a.targets) and isinstance(a.value, ast.Constant) and a.value.value is False]
+    ctx.need(len(clears) >= 1, "step: `self._in_interrupt = False` not found")
+    for a in clears:
+        n += 1
+        gs = g.guards_of(g.node_of(a))
+        texts = []
+        for x, pol, _o in gs:
+            if isinstance(x, ast.AST) and pol:
+                t = unparse(x)
+                for nm in [y.id for y in ast.walk(x) if isinstance(y, ast.Name)]:
+                    for d in defs.get(nm, []):
+                        if isinstance(d, ast.AST):
+                            t += " <- " + unparse(d)
+                texts.append(t)
+        if not any("RETI" in t for t in texts):
+            ctx.violation("C12.3/reti-only", key_of(EMU, "PCE500Emulator.step", "interrupt context left on something other than RETI"),
+                          f"`self._in_interrupt = False` is guarded by {texts[-2:]} - not by a test for RETI: a plain RET inside a handler ends the interrupt context and a key interrupt is taken with IRM clear", f"{EMU}:{a.lineno}")
+    # (c)
+    tk = py.func(EMU, "PCE500Emulator._tick_timers")
+    gt = cfgmod.build_py(tk, "_tick_timers")
+    latches = [c for c in ast.walk(tk) if py_is_call(c, "self._set_isr_bits") and c.args and ("MTI" in unparse(c.args[0]) or "STI" in unparse(c.args[0]))]
+    arms = [a for a in ast.walk(tk) if isinstance(a, ast.Assign) and any(attr_chain(t) == "self._irq_pending" for t in a.targets) and isinstance(a.value, ast.Constant) and a.value.value is True]
+    ctx.need(len(latches) >= 2 and len(arms) >= 2, f"_tick_timers: expected ISR latches and pending arms for MTI and STI, found {len(latches)}/{len(arms)}")
+    for c in latches:
+        n += 1
+        src = "MTI" if "MTI" in unparse(c.args[0]) else "STI"
+        lg = {(unparse(x), pol) for x, pol, _o in gt.guards_of(gt.node_of(c)) if isinstance(x, ast.AST)}
+        ok = False
+        for a in arms:
+            ag = {(unparse(x), pol) for x, pol, _o in gt.guards_of(gt.node_of(a)) if isinstance(x, ast.AST)}
+            if ag <= lg or ag == lg:
+                ok = True
+            elif lg <= ag and any(src in t for t, _p in ag):
+                extra = sorted(t for t, _p in ag - lg)
+                if all(src not in t or "source is" in t for t in extra) and all("source is" in t for t in extra):
+                    ok = True
+        if not ok:
+            ctx.violation("C12.1/latch-arms", key_of(EMU, "PCE500Emulator._tick_timers", f"{src} latch without arming the dispatcher"),
+                          f"the {src} status bit is latched in ISR, but `_irq_pending = True` for it is under a stricter condition: a request latched while masked is not delivered once the program unmasks it", f"{EMU}:{c.lineno}")
+    ctx.instance("C12.3/python-frame-values", "saved IMR is the unmasked IMR; leaving interrupt context requires RETI; every timer ISR latch arms the dispatcher", n, 5)
 
 
 # ---------------------------------------------------------------------------
